@@ -11,7 +11,7 @@ import ast
 from typing import Dict, List, Optional, Tuple
 
 from ..core import AnalysisError, Loc, Report, Source, norm
-from ..handlers import HandlerFacts, concrete_handlers, is_time_slice_routine, stores, time_slice_obligations
+from ..handlers import HandlerFacts, concrete_handlers, is_zero_vector, is_time_slice_routine, stores, time_slice_obligations
 from ..protocol import HandlerProtocol, _is_copy_of
 from ..pyfront import Program, body_without_docstring, param_names, self_attr
 from ..selftest import Edit
@@ -35,10 +35,9 @@ def velocity_source(prog: Program, cls, fn: ast.FunctionDef, value: Optional[ast
         return "none"
     if isinstance(v, ast.Attribute) and v.attr == "velocity":
         return "unit-velocity"
+    if is_zero_vector(v):
+        return "zero-vector"
     if isinstance(v, (ast.ListComp, ast.List)):
-        elts = [v.elt] if isinstance(v, ast.ListComp) else v.elts
-        if all(isinstance(e, ast.Constant) and e.value == 0 for e in elts):
-            return "zero-vector"
         return None
     if isinstance(v, ast.Name):
         d = _local_def(fn, v.id)
@@ -111,7 +110,7 @@ def norm_preserving(fn: ast.FunctionDef, cls_init: Optional[ast.FunctionDef]) ->
     # (a) one-hot relocation: new = zero vector; new[j] = old[i]; return new
     if isinstance(rv, ast.Name):
         d = _local_def(fn, rv.id)
-        zero = isinstance(d, ast.ListComp) and isinstance(d.elt, ast.Constant) and d.elt.value == 0
+        zero = d is not None and is_zero_vector(d)
         sets = [s for s in body if isinstance(s, ast.Assign) and isinstance(s.targets[0], ast.Subscript)
                 and isinstance(s.targets[0].value, ast.Name) and s.targets[0].value.id == rv.id]
         other = [s for s in body if isinstance(s, ast.AugAssign) and norm(s.target).startswith(rv.id)]
